@@ -160,7 +160,9 @@ class C16(Prop):
             twin0 = copy.deepcopy(twin)
             for key in ("heuristic", "eig", "tol"):
                 twin0["cfg"].pop(key, None)
-            plan["twin0"] = b.ops + [twin0]
+            # (in primal mode that number is the smallest performance metric of the instance of problem 1)
+            plan["twin0"] = b.ops + [twin0] + [{"op": "eval", "h": m} for m in (b.info.get("metrics") or [])]
+            plan["twin0_solve_at"] = len(b.ops)
             ops.append(solve)
             if kind == 1 or (kind == 0):
                 # the solver call that fails is the second one: no solve of this model has succeeded, accessors
@@ -285,9 +287,17 @@ class C16(Prop):
                 elif exp == "twin" and "twin" in res:
                     judged += 1
                     tw = (res["twin"].get("outcomes") or [{}])[-1]
-                    tw0 = ((res.get("twin0") or {}).get("outcomes") or [{}])[-1]
+                    o0 = (res.get("twin0") or {}).get("outcomes") or []
+                    k0 = plan.get("twin0_solve_at", len(o0) - 1)
+                    tw0 = o0[k0] if len(o0) > k0 else {}
+                    mets0 = [o.get("value") for o in o0[k0 + 1:] if o.get("status") == "ok"]
+                    try:
+                        min0 = min(float.fromhex(v) for v in mets0) if mets0 else None
+                    except (TypeError, ValueError):
+                        min0 = None
+                    same_as_min0 = min0 is not None and float.fromhex(val) == min0 if isinstance(val, str) else False
                     if out.get("status") == "ok" and val is not None and val != tw.get("value") and \
-                            val != tw0.get("value"):
+                            val != tw0.get("value") and not same_as_min0:
                         sc = op["peer"]["script"]
                         perturbed = any(v.get("values") == "perturbed" for v in sc.values())
                         if not perturbed:
